@@ -328,6 +328,10 @@ def c04(c):
     drive("solve", ["--tier", c.tier, "--seed", c.seed, "--out", c.work, "--shards", 12])
     to = validate_traces("Trace_Solve", traces_in(c.work, "solve"), parallel=PAR, timeout=7200)
     c.add_traces(to, keyfn=generic_key, label="solve")
+    # ... and its helpers: field norm, lift, Galois / Hermitian adjoint, reduction modulo x^n + 1
+    drive("polyhelpers", ["--tier", c.tier, "--seed", c.seed, "--out", c.work, "--shards", 8])
+    to = validate_traces("Trace_Poly", traces_in(c.work, "poly."), parallel=8, sparse=True)
+    c.add_traces(to, keyfn=generic_key, label="poly")
     c.assumptions += ["'for every seed' is sampled", "leaves are observed through the read-only accessor; inner tree nodes are covered by C10's moments only",
                       "the second Gram-Schmidt bound is checked through its equivalent, the leaf range"]
 
